@@ -5,6 +5,7 @@ import json, os, re, shutil, sys, glob
 logs = sys.argv[1:]
 text = "".join(open(f).read() for f in logs)
 blocks = re.split(r"^=== ", text, flags=re.M)[1:]
+history = {}
 for b in blocks:
     head, _, body = b.partition("\n")
     m = re.match(r"(C\d+)/(m\d) → checks (.*)", head)
@@ -28,7 +29,12 @@ for b in blocks:
     for f in glob.glob(f"{src}/*_test.go"):
         shutil.copy(f, dst + "/demo_test.go.txt")
     notes = open(f"{src}/notes.md").read() if os.path.exists(f"{src}/notes.md") else ""
-    caught_by = [c for c, r in results.items() if r["violations"] > 0]
+    h = history.setdefault(f"{prop}-{mk}", {"latest": {}, "rounds": []})
+    h["rounds"].append({"checks": results, "labels": labels})
+    h["latest"].update(results)
+    results = dict(h["latest"])
+    caught_by = sorted(c for c, r in results.items() if r["violations"] > 0)
+    first = h["rounds"][0]["checks"]
     meta = {
         "property": prop,
         "id": f"{prop}-{mk}",
@@ -40,6 +46,8 @@ for b in blocks:
         },
         "checks_run": results,
         "caught_by": caught_by,
+        "first_round": {"checks": first, "note": "results of the first time this change was run, before any strengthening of the checks it was then run against"},
+        "rounds": len(h["rounds"]),
         "labels": labels,
         "demo": "demo_test.go.txt (rename to *_test.go at the place its package clause says, usually the repository root)",
     }
